@@ -56,7 +56,15 @@ def c13(tier, seed):
         J(MEM, "VerifK13Read", api=1, n=1 if q else 2, conds=1, timeout_ms=t),
         J(MEM, "VerifK13ReadUserTuple", n=n, conds=2, timeout_ms=t),
         J(MEM, "VerifK13ReadUsersetTuples", n=1 if q else 2, restr=2, conds=0, timeout_ms=t),
-        J(MEM, "VerifK13ReadStartingWithUser", n=n, users=2, conds=1 if q else 2, timeout_ms=t),
+    ]
+    if q:
+        jobs.append(J(MEM, "VerifK13ReadStartingWithUser", n=2, users=2, conds=1, timeout_ms=t))
+    else:
+        for k in range(0, 3):  # one job per record count
+            jobs.append(J(MEM, "VerifK13ReadStartingWithUser", nfix=k, users=2, conds=2, timeout_ms=t))
+        # three records: one user filter and <= 1 condition name (two user filters on three records exceed the job budget)
+        jobs.append(J(MEM, "VerifK13ReadStartingWithUser", nfix=3, users=1, conds=1, timeout_ms=t))
+    jobs += [
         # suspicions put to the solver; each job isolates one input class and tags its messages with [case]
         J(MEM, "VerifK13ReadUsersetTuples", n=1 if q else 2, restr=1, conds=1, case="conditions", timeout_ms=t),
         J(MEM, "VerifK13ReadUsersetTuples", n=1, restr=2, conds=0, duprestr=1, case="duplicate-restrictions", timeout_ms=t),
@@ -138,7 +146,7 @@ SPEC = {
     "C13": {
         "jobs": c13,
         "level_text": "bounded symbolic execution of MemoryBackend.Read / ReadPage / ReadUserTuple / ReadUsersetTuples / ReadStartingWithUser (real SSA incl. match and the pkg/tuple classification helpers) on <= N records with symbolic content and symbolic filters against reference predicates written in the harness from the doc comments of pkg/storage/storage.go (and the SQL WHERE clauses read by hand): the result is, as a multiset, exactly the records that satisfy the documented meaning of the filter (each once), ReadUserTuple reports ErrNotFound exactly when none does, ReadStartingWithUser is in ascending object order; the iterator protocol and the AsTuple rendering (condition name round trip) are checked separately. Five input classes on which the memory backend deviates are isolated in jobs of their own and are reported as findings",
-        "level_note": "bounds: N = 2 records (quick) / 3 (thorough), ReadUsersetTuples 1 / 2; vocabulary: 2 object types x 2 ids x 2 relations x 7 users (user:a, user:b, user:*, g:x#m, g:y#n, g:*, h:x#m) x 3 condition names (incl. none); filters: object absent / type only / complete, relation absent / set, user absent / type only / complete, Conditions lists of 0..2 names (duplicates and \"\" allowed), <= 2 userset restrictions out of g#m, g#n, h#m, g:*, user:*, <= 2 user filters, ObjectIDs nil / any subset of the ids (incl. empty); result selection is compared on record identity (iterator state), tuple contents through Next on smaller bounds (drain=1). " + _TRUST,
+        "level_note": "bounds: N = 2 records (quick) / 3 (thorough), ReadUsersetTuples 1 / 2, ReadStartingWithUser 2 / 2 with two user filters and 3 with one; vocabulary: 2 object types x 2 ids x 2 relations x 7 users (user:a, user:b, user:*, g:x#m, g:y#n, g:*, h:x#m) x 3 condition names (incl. none); filters: object absent / type only / complete, relation absent / set, user absent / type only / complete, Conditions lists of 0..2 names (duplicates and \"\" allowed), <= 2 userset restrictions out of g#m, g#n, h#m, g:*, user:*, <= 2 user filters, ObjectIDs nil / any subset of the ids (incl. empty); result selection is compared on record identity (iterator state), tuple contents through Next on smaller bounds (drain=1). " + _TRUST,
         "assumptions": [
             "stored records have pairwise distinct (object, relation, user)",
             "storage.SortedSet is a list-backed set in the harness (the red-black tree library is outside; the backend only calls Exists)",
